@@ -26,6 +26,53 @@ def introspect(s):
     s.cmd(0, "PUBSUB", "NUMPAT")
     s.cmd(0, "PUBSUB", "NUMSUB", *ALL_NAMES)
 
+CHANNEL_ARGS = ["a*", "*", "?", "b", "zz", "{a,b}*"]
+
+def introspect_full(s):
+    """CHANNELS / NUMPAT / NUMSUB and CHANNELS with every kind of argument (a pattern that is also a name, a
+    catch-all, one character, a literal, nothing matching)"""
+    introspect(s)
+    for p in CHANNEL_ARGS:
+        s.cmd(0, "PUBSUB", "CHANNELS", p)
+
+UNSUB_SETUPS = [
+    # overlapping channels and patterns on two connections
+    [(1, "SUBSCRIBE", "a", "ab", "b"), (1, "PSUBSCRIBE", "a*", "?"), (2, "SUBSCRIBE", "a", "a*"), (2, "PSUBSCRIBE", "a*", "b")],
+    # one text as channel and as pattern on one connection
+    [(1, "SUBSCRIBE", "a*"), (1, "PSUBSCRIBE", "a*"), (2, "PSUBSCRIBE", "a*")],
+    # nothing subscribed at all
+    [],
+    # duplicates inside SUBSCRIBE
+    [(1, "SUBSCRIBE", "a", "a", "b", "a"), (2, "SUBSCRIBE", "a"), (1, "PSUBSCRIBE", "b", "b")],
+]
+UNSUB_ARGS = [(), ("nosuch",), ("a", "a"), ("a*", "nosuch", "a*"), ("b", "a", "ab", "b"), ("?",), ("nosuch", "nosuch")]
+
+def unsub_scripts(prefix):
+    """directed: (P)UNSUBSCRIBE with no argument, names never subscribed, names of the other kind, duplicates —
+    from tables with overlapping channel / pattern subscriptions, the same command twice (the second time nothing
+    is left to drop), every introspection form after every step, then publishes"""
+    out = []
+    n = 0
+    for setup in UNSUB_SETUPS:
+        cmds = [(c, w) + a for w in ("UNSUBSCRIBE", "PUNSUBSCRIBE") for c, args in ((1, UNSUB_ARGS), (2, [(), ("a*", "a*")]), (0, [()]))
+                for a in args]
+        for cmd in cmds:
+            s = new_script("%s%d" % (prefix, n), {1: "v", 2: "v"})
+            n += 1
+            for ev in setup:
+                s.cmd(*ev)
+            introspect_full(s)
+            for _ in range(2):
+                s.cmd(*cmd)
+                introspect_full(s)
+            s.cmd(0, "PUBLISH", "a", "p1")
+            s.cmd(2, "PUBLISH", "ab", "p2")
+            s.cmd(0, "PUBLISH", "b", "p3")
+            s.cmd(1, "PUBLISH", "a*", "p4")
+            take(s)
+            out.append(s)
+    return out
+
 def small_alphabet():
     """commands of the exhaustive stream, over connections 1 and 2"""
     out = []
